@@ -441,6 +441,38 @@ def extractSerial (qtype : Nat) (auth : Option Nat) : Except XErr (Option Nat) :
     | some s => .ok (some s)
     | none => .error .KeyError     -- `find_rrset` raises KeyError
 
+/-! ## what reading a response from the wire does to its answer section
+(`dns.message._WireReader._get_section` with `xfr=True`, `Message.find_rrset`, `RRset.add`) -/
+
+/-- `rrset.add(rd, ttl)` on the rrset found for the record: TTL minimisation, singleton rule, no duplicates -/
+def mergeInto (rs : RRset) (r : RR) : RRset :=
+  { rs with ttl := (match rs.rdatas with | [] => r.ttl | _ :: _ => min rs.ttl r.ttl),
+            rdatas := if isSingleton rs.rdtype then [r.rdata]
+                      else if rs.rdatas.contains r.rdata then rs.rdatas else rs.rdatas ++ [r.rdata] }
+
+/-- the rrset `find_rrset` returns for a record when it may reuse one: the index keeps, per
+(owner, type, covers), the rrset created last -/
+def mergeLast : List RRset → RR → Option (List RRset)
+  | [], _ => none
+  | rs :: rest, r =>
+    match mergeLast rest r with
+    | some rest' => some (rs :: rest')
+    | none => if rs.owner == r.owner && rs.rdtype == r.rdtype then some (mergeInto rs r :: rest) else none
+
+/-- the loop over the records of the answer section: `force_unique` starts as `one_rr_per_rrset` and stays
+on from the first SOA on (a zone transfer's order matters from there) -/
+def parseLoop : Bool → List RRset → List RR → List RRset
+  | _, acc, [] => acc
+  | force, acc, r :: rest =>
+    if force || r.rdtype == soaType then parseLoop true (acc ++ [single r]) rest
+    else match mergeLast acc r with
+      | some acc' => parseLoop false acc' rest
+      | none => parseLoop false (acc ++ [single r]) rest
+
+/-- the answer section of `dns.message.from_wire(wire, xfr=True, one_rr_per_rrset=oneRR)` for a message
+whose answer records are `recs`, in wire order -/
+def parseAnswer (oneRR : Bool) (recs : List RR) : List RRset := parseLoop oneRR [] recs
+
 /-! ## `dns.query.inbound_xfr`: which query, and UDP first with a TCP retry -/
 
 inductive UdpMode where
